@@ -47,8 +47,47 @@ extern "C" int __real_poll(struct pollfd*, nfds_t, int);
 namespace {
 
 ssize_t pipe_read(int fd, void* buf, size_t n);
+ssize_t fault_read(int fd, void* buf, size_t n, off_t off, bool positioned);
 
 vfe::Env g_env;
+
+// round 3: FAULTS as part of the compared environment.  A source (cookie stream or wrapped descriptor) asks the plan before
+// every read callback / read() / pread() call; the explorer may answer up to `budget` calls with -1 and errno in
+// {EINTR, EAGAIN, EIO}; a fault is transient (only that call fails) or permanent (that call and the next kPermanentCalls
+// calls fail; a caller that still keeps asking then gets end-of-file for good, so a retry loop on a failing source ends
+// and its result is compared like any other - whether retrying a failing source is wise is not part of the statement).
+const int kFaultErrno[3] = {EINTR, EAGAIN, EIO};
+const char* const kFaultName[3] = {"EINTR", "EAGAIN", "EIO"};
+const size_t kPermanentCalls = 64;
+struct FaultPlan {
+  int budget = 0;          // faults the explorer may still place
+  size_t perm_failed = 0;  // calls failed since the permanent fault started
+  bool exhausted = false;  // the caller retried a permanently failing source kPermanentCalls times: end-of-file from now on
+  bool permanent = false;  // a permanent fault has started
+  int perm_errno = 0;
+  size_t faults = 0;       // calls answered with -1 so far
+  size_t calls = 0;
+  std::string log;
+  // 0 = answer this call normally, -1 = answer it with end-of-file, else the errno to fail it with
+  int next() {
+    size_t idx = calls++;
+    if (exhausted) return -1;
+    if (permanent) {
+      if (++perm_failed > kPermanentCalls) { exhausted = true; return -1; }
+      faults++;
+      return perm_errno;
+    }
+    if (budget <= 0) return 0;
+    int c = g_env.choose(7);  // 0 normal; 1..3 transient EINTR/EAGAIN/EIO; 4..6 permanent
+    if (c == 0) return 0;
+    budget--;
+    faults++;
+    int e = kFaultErrno[(c - 1) % 3];
+    if (c > 3) { permanent = true; perm_errno = e; }
+    log += "call #" + std::to_string(idx) + " fails with " + kFaultName[(c - 1) % 3] + (c > 3 ? " and so does every later call; " : " (only this call); ");
+    return e;
+  }
+};
 
 struct Source {
   bool active = false;
@@ -68,6 +107,11 @@ struct Source {
   std::vector<std::string> chunks;
   size_t next_chunk = 0;
   size_t in_pipe = 0;
+  // round 3
+  bool fault_mode = false;   // regular file: every read()/pread() delivers at most `chunk` bytes (0: what was asked) or fails as `plan` says
+  size_t chunk = 0;
+  size_t short_answers = 0;  // calls answered with fewer bytes than asked for although the file had more
+  FaultPlan plan;
 } g_src;
 
 // sink side: write() calls on the descriptor opened for `path` may be short (save_file / writex)
@@ -83,12 +127,14 @@ struct Sink {
 int g_poll_eintr = 0;  // >0: the next Poll::poll() system call is interrupted by a signal
 
 // choice menu for a call that could deliver up to R bytes
-size_t pick_chunk(size_t R, bool* inject_error) {
-  *inject_error = false;
+// *inject_error: 0 or the errno the call fails with (one failing call per execution: EINTR or, round 3, EAGAIN)
+size_t pick_chunk(size_t R, int* inject_error) {
+  *inject_error = 0;
   if (R == 0) {
     // at EOF the only other answer is an error
     if (!g_src.error_used && !g_src.small && !g_src.no_error) {
-      if (g_env.choose(2) == 1) { g_src.error_used = true; *inject_error = true; }
+      int c = g_env.choose(3);
+      if (c) { g_src.error_used = true; *inject_error = c == 1 ? EINTR : EAGAIN; }
     }
     return 0;
   }
@@ -99,9 +145,9 @@ size_t pick_chunk(size_t R, bool* inject_error) {
     menu.push_back(R);
     for (size_t k : {(size_t)1, R / 2, R - 1}) if (k >= 1 && k < R && std::find(menu.begin(), menu.end(), k) == menu.end()) menu.push_back(k);
   }
-  int nopt = (int)menu.size() + ((g_src.error_used || g_src.no_error) ? 0 : 1);
+  int nopt = (int)menu.size() + ((g_src.error_used || g_src.no_error) ? 0 : 2);
   int c = g_env.choose(nopt);
-  if (c >= (int)menu.size()) { g_src.error_used = true; *inject_error = true; return 0; }
+  if (c >= (int)menu.size()) { g_src.error_used = true; *inject_error = c == (int)menu.size() ? EINTR : EAGAIN; return 0; }
   return menu[c];
 }
 
@@ -124,7 +170,7 @@ namespace {
 ssize_t pipe_read(int fd, void* buf, size_t n) {
   g_src.calls++;
   size_t pend = g_src.chunks.size() - g_src.next_chunk;
-  std::vector<long> menu;  // number of chunks flushed before the read; -1 = EINTR
+  std::vector<long> menu;  // number of chunks flushed before the read; -1 = EINTR, -2 = EAGAIN
   if (pend) {
     size_t lo = g_src.in_pipe ? 0 : 1;  // an empty pipe with a live writer would block: something must arrive first
     if (g_src.small) {
@@ -134,9 +180,9 @@ ssize_t pipe_read(int fd, void* buf, size_t n) {
       for (size_t j : {(size_t)1, (size_t)2, pend / 2, (size_t)0}) if (j >= lo && j < pend && std::find(menu.begin(), menu.end(), (long)j) == menu.end()) menu.push_back((long)j);
     }
   } else menu.push_back(0);
-  if (!g_src.error_used && !g_src.no_error) menu.push_back(-1);
+  if (!g_src.error_used && !g_src.no_error) { menu.push_back(-1); menu.push_back(-2); }
   long j = menu.size() > 1 ? menu[g_env.choose((int)menu.size())] : menu[0];
-  if (j < 0) { g_src.error_used = true; errno = EINTR; return -1; }
+  if (j < 0) { g_src.error_used = true; errno = j == -1 ? EINTR : EAGAIN; return -1; }
   for (long k = 0; k < j && g_src.next_chunk < g_src.chunks.size(); k++) {
     std::string& c = g_src.chunks[g_src.next_chunk];
     ssize_t w = c.empty() ? 0 : __real_write(g_src.wfd, c.data(), c.size());
@@ -157,15 +203,29 @@ ssize_t pipe_read(int fd, void* buf, size_t n) {
 }
 }  // namespace
 
+namespace {
+// Fault-mode source (round 3): a regular file whose read()/pread() calls deliver at most g_src.chunk bytes, or fail as the plan says.
+ssize_t fault_read(int fd, void* buf, size_t n, off_t off, bool positioned) {
+  g_src.calls++;
+  if (int e = g_src.plan.next()) { if (e < 0) return 0; errno = e; return -1; }
+  size_t k = g_src.chunk ? std::min(n, g_src.chunk) : n;
+  ssize_t r = positioned ? __real_pread(fd, buf, k, off) : __real_read(fd, buf, k);
+  if (r > 0) g_src.consumed += r;
+  if (k < n && r == (ssize_t)k) g_src.short_answers++;  // (conservative: counts a cut-off answer even when the file ended right there)
+  return r;
+}
+}  // namespace
+
 extern "C" ssize_t __wrap_read(int fd, void* buf, size_t n) {
   if (!g_src.active || fd != g_src.fd || fd < 0) return __real_read(fd, buf, n);
   if (g_src.pipe) return pipe_read(fd, buf, n);
+  if (g_src.fault_mode) return fault_read(fd, buf, n, 0, false);
   g_src.calls++;
   if (g_src.real_offset) { off_t o = lseek(fd, 0, SEEK_CUR); if (o >= 0) g_src.consumed = (size_t)o; }
   size_t remaining = g_src.size - std::min(g_src.size, g_src.consumed);
-  bool err;
+  int err;
   size_t k = pick_chunk(std::min(n, remaining), &err);
-  if (err) { errno = EINTR; return -1; }
+  if (err) { errno = err; return -1; }
   ssize_t r = k ? __real_read(fd, buf, k) : __real_read(fd, buf, n);
   if (r > 0) g_src.consumed += r;
   g_src.last_call_sizes.push_back(r < 0 ? 0 : r);
@@ -174,11 +234,12 @@ extern "C" ssize_t __wrap_read(int fd, void* buf, size_t n) {
 
 extern "C" ssize_t __wrap_pread(int fd, void* buf, size_t n, off_t off) {
   if (!g_src.active || fd != g_src.fd || fd < 0) return __real_pread(fd, buf, n, off);
+  if (g_src.fault_mode) return fault_read(fd, buf, n, off, true);
   g_src.calls++;
   size_t remaining = (size_t)off >= g_src.size ? 0 : g_src.size - (size_t)off;
-  bool err;
+  int err;
   size_t k = pick_chunk(std::min(n, remaining), &err);
-  if (err) { errno = EINTR; return -1; }
+  if (err) { errno = err; return -1; }
   ssize_t r = k ? __real_pread(fd, buf, k, off) : __real_pread(fd, buf, n, off);
   if (r > 0) g_src.consumed += r;
   return r;
@@ -570,6 +631,7 @@ VF_SECTION(fgets_lines, 16, 16, 240) {
 
 #include "C14_hist.hh"
 #include "C14_objs.hh"
+#include "C14_faults.hh"
 
 // ---- files, paths, directories ------------------------------------------------------------------------
 
